@@ -151,6 +151,9 @@ def generate(rng, tier):
             table["wtypes"] = {rng.choice(plain): [rng.randint(0, 4), rng.randint(4, 9)] + (["center"] if rng.random() < 0.4 else [])}
     if rng.random() < 0.25 and recs and not odd:
         table["nt"] = True
+    elif rng.random() < 0.2:
+        # the names arrive as a tuple, or as members of the caller's (str, Enum) class
+        table["fields_as"] = rng.choice(["tuple", "strenum"])
     ops = []
     live = set()
     long_run = rng.random() < 0.04
@@ -300,7 +303,7 @@ def build_table(w, fmt=None, fmt_obj=None, with_limits=True, ctx=None):
     kw = {}
     if fmt_obj is None:
         if not spec.get("nt"):
-            kw["fields"] = list(spec["fields"])
+            kw["fields"] = rw.ro.fields_arg(spec)
         if spec.get("types"):
             kw["fields_types"] = {n: w.enums[i] for n, i in spec["types"].items()}
         if spec.get("wtypes"):
